@@ -27,7 +27,33 @@ var prop = vlib.Prop[*vlib.HistCase]{
 		if rapid.IntRange(0, 5).Draw(t, "with-list-choice") == 0 {
 			u = vlib.UniChoice
 		}
-		return vlib.GenHistCase(t, vlib.HistGenOpts{Universe: u, MinSteps: 1, MaxSteps: 10, WithInit: false, AllowOrphan: false})
+		c := vlib.GenHistCase(t, vlib.HistGenOpts{Universe: u, MinSteps: 1, MaxSteps: 10, WithInit: false, AllowOrphan: false})
+		if rapid.IntRange(0, 7).Draw(t, "layered-presence-member") == 3 {
+			// a presence container that is a case member holds a value of its own from a weak owner and a child of
+			// the strongest owner; a third owner with a priority in between populates another case
+			idx := func(path string) int {
+				for i, tm := range u.Tmpls {
+					if tm.Path == path {
+						return i
+					}
+				}
+				return 0
+			}
+			own := rapid.Permutation([]int{0, 1, 2, 3}).Draw(t, "layer-owners")
+			mk := func(o, prio int, path string) vlib.Step {
+				return vlib.Step{Intents: []vlib.IntentOp{{Owner: o, Kind: "set", PrioIx: prio, Leaves: []vlib.LeafSel{{T: idx(path), V: rapid.IntRange(0, 2).Draw(t, "layer-v")}}, Form: "typed"}}}
+			}
+			other := rapid.SampledFrom([]string{"chc/ca", "chc/cl", "chc/ca2"}).Draw(t, "layer-other-case")
+			pre := []vlib.Step{mk(own[0], 3, "chc/cbp"), mk(own[1], 0, "chc/cbp/y"), mk(own[2], 1, other)}
+			if rapid.Bool().Draw(t, "layer-order") {
+				pre[0], pre[1] = pre[1], pre[0]
+			}
+			c.Steps = append(pre, c.Steps...)
+			if len(c.Steps) > 10 {
+				c.Steps = c.Steps[:10]
+			}
+		}
+		return c
 	},
 	Exec: Exec,
 }
@@ -43,7 +69,8 @@ func Exec(c *vlib.HistCase) (nontrivial bool, labels []string, fail *vlib.Failur
 	defer h.DS.Stop()
 	lab := map[string]bool{}
 	prevWin := map[string]string{}
-	owed := map[string]bool{}
+	ghost := map[string]string{}
+	var firstKnown *vlib.Failure
 	for i, st := range c.Steps {
 		res := h.RunStep(st)
 		if !res.OK {
@@ -82,35 +109,50 @@ func Exec(c *vlib.HistCase) (nontrivial bool, labels []string, fail *vlib.Failur
 		if rec := h.Dev.LastRecord(); rec != nil && h.Dev.Calls() > res.DevCallsBefore && len(rec.Anomalies) > 0 {
 			return nontrivial, keys(lab), vlib.Failf("C08:payload-anomaly", "step %d: %v", i, rec.Anomalies)
 		}
-		// members of a case that newly wins in this step and are held by intents outside the transaction: the recorded
-		// finding is that they are not sent. Their absence can stay hidden (a presence container that another owner's child
-		// keeps alive) and surface in a later step; they stay "owed" until their owner is part of a transaction again.
+		// The recorded finding: members of a case that newly wins in this step, held by intents outside the transaction,
+		// are not sent. To keep searching behind it the harness remembers what the device lacks for that reason
+		// ("ghosts": path -> value it should have received) and judges every later step against the device plus its ghosts.
+		// A ghost goes away when its owner is part of a transaction again (then it is really sent) or the path is no
+		// longer expected. The case still ends as a counted instance of the recorded finding, but only after the whole
+		// history was checked; any other discrepancy wins.
 		{
 			inTx := map[string]bool{}
 			for _, ri := range res.Resolved {
 				inTx[ri.Name] = true
 			}
-			for p := range owed {
+			exp := h.Model.Expected()
+			for p := range ghost {
 				if ds := h.Model.Definers(p); len(ds) == 0 || inTx[ds[0].Name] {
-					delete(owed, p)
+					delete(ghost, p)
+				} else if _, ok := exp[p]; !ok {
+					delete(ghost, p)
 				}
 			}
-			for p := range h.Model.Expected() {
+			for p, v := range exp {
 				ds := h.Model.Definers(p)
 				if len(ds) == 0 || inTx[ds[0].Name] {
 					continue
 				}
+				if _, has := dev[p]; has {
+					continue
+				}
 				for _, cr := range vlib.ChoiceRefs(vlib.MustCanon(p)) {
 					if oldWin[cr.Inst] != cr.Case && win[cr.Inst] == cr.Case {
-						owed[p] = true
+						if _, known := ghost[p]; !known && firstKnown == nil {
+							firstKnown = vlib.Failf("C08:A:newly-won-case-member-missing", "step %d (%s) winners=%v: path %s = %q held by %s (outside the transaction) belongs to the case that wins from this step on and was not sent to the device\ndevice: %s", i, describe(res), win, p, v, ds[0].Name, vlib.JSON(dev))
+						}
+						ghost[p] = v
+						lab["newly-won-member-not-sent"] = true
 					}
+				}
+			}
+			for p, v := range ghost {
+				if _, has := dev[p]; !has {
+					dev[p] = v
 				}
 			}
 		}
 		if f := vlib.CheckConvergencePfx("C08", h.Model, dev, fmt.Sprintf("step %d (%s) winners=%v", i, describe(res), win)); f != nil {
-			if f.Sig == "C08:A:missing" && (newlyWonMemberMissing(h.Model, dev, oldWin, win, res) || onlyOwedMissing(h.Model, dev, owed)) {
-				f.Sig = "C08:A:newly-won-case-member-missing"
-			}
 			if strings.Contains(f.Detail, ": path /chc/ce[") && (strings.HasPrefix(f.Sig, "C08:B:losing-case") || strings.HasPrefix(f.Sig, "C08:A:")) {
 				f.Sig += ":choice-in-list-entry"
 			}
@@ -141,7 +183,7 @@ func Exec(c *vlib.HistCase) (nontrivial bool, labels []string, fail *vlib.Failur
 			}
 		}
 	}
-	return nontrivial, keys(lab), nil
+	return nontrivial, keys(lab), firstKnown
 }
 
 // newlyWonMemberMissing: every expected-but-missing path is a member of a case
